@@ -108,4 +108,28 @@ PROPS = {
             "semantic oracles are as wide as the generator's fragment",
         ],
     },
+    "C13": {
+        "level": "fault_enumeration",
+        "runs": {"quick": 600, "thorough": 60000},
+        "selftest_runs": 300,
+        "needs_real": True,
+        "rule": (
+            "each run draws sources (1-3 generated modules; in half of the runs an error injected at the lexical, syntax, import, resolution, type, cycle or evaluation phase), a configuration "
+            "(options / config file / config file with the target overridden by an option; with or without a base document; target absent or pre-filled with a sentinel) and executes the real oal-cli "
+            "in a private tmpfs directory under LD_PRELOAD (pinned hash seed and clock, ASLR off, every open/read/write/close on the directory traced): once fault-free, then once under one fault drawn "
+            "from the fault-free trace: short read, EINTR on read or write, short write (must be absorbed: same exit status and target bytes); EIO on read, ENOENT/EISDIR/EMFILE/EIO on open, ENOSPC after n bytes of the "
+            "target, target is a directory or /dev/full, a source replaced by a directory, non-UTF-8 source, malformed base (exit 0 is a violation); _exit at the k-th traced call; a source whose content "
+            "differs between its two opens. Oracles: exit 0 <=> the in-process pipeline accepts the sources; on exit 0 the target is a complete document opened for writing once and after the last input read; "
+            "on a source error exit != 0, target byte-identical to the sentinel / still absent, never opened for writing, stderr non-empty and naming a source locator; wasm (single module, no base) fails "
+            "exactly when the CLI fails and otherwise emits the same document; a simulated language server on the same directory, after a drawn open/close/idle history, has >=1 outstanding diagnostic "
+            "exactly when the CLI fails. evaluations = process executions + LSP leg; non-trivial = the CLI process ran; distinct = distinct (sources, exits, traces, document)."
+        ),
+        "real": ["the oal-cli binary (guard off) in a real process on a real kernel file system (tmpfs)", "oal_wasm::compile (native build)", "LSP server loop as in C15 for the agreement clause"],
+        "stub": ["libc open/open64/openat/read/write/close/getrandom/clock_gettime via LD_PRELOAD (faults, trace, pinned seed and clock)", "ASLR (setarch -R)", "lsp-server transport as in C15"],
+        "assumptions": COMMON_ASSUME + [
+            "'located in the sources' is read as: stderr contains the locator of a source file, required for syntax/compile/evaluation errors (import and cycle errors print a message with the import's locator)",
+            "after a hard I/O fault only 'exit 0 with an incomplete target' and 'source error => target untouched' are judged; a torn target after a failed write is not held against the program",
+            "oal-cli is single-threaded, so its traced call sequence is a pure function of inputs, plan and pinned environment",
+        ],
+    },
 }
